@@ -161,41 +161,42 @@ def work_helpers(args):
                 for npi in (0, 1, 2, 3):
                     for with_sess in (False, True):
                         avps = ([rc.utf8(263, "sess;9")] if with_sess else []) + [rc.octets(264, b"peer.example.org")] + pis[:npi]
-                        wire = rc.enc_msg(code, R | P, 4, 0x1234, 0x5678, avps)
-                        for via in ("node", "auth"):
-                            n += 1
-                            case = {"class": label, "proxy_infos": npi, "session": with_sess, "via": via}
-                            try:
-                                req = Message.from_bytes(wire)
-                                ans = node._generate_answer(None, req) if via == "node" else apps[via].generate_answer(req, result_code=2001)
-                                tag = "node" if via == "node" else "app"
-                                check_header(label, kind, hdr_tuple(req), req, ans, None, f"generate_answer[{tag}]", out, case)
-                                if with_sess and getattr(ans, "session_id", None) != "sess;9":
-                                    out.append(Violation(f"generate_answer[{tag}]:session-id-not-copied:untyped", f"{case}", case))
-                                if npi and not (hasattr(ans, "proxy_info") and same_attr(ans.proxy_info, req.proxy_info)):
-                                    out.append(Violation(f"generate_answer[{tag}]:proxy-info-not-copied:untyped:{npi}",
-                                                         f"{case}: answer has {getattr(ans, 'proxy_info', None)!r}", case))
-                                oh = getattr(ans, "origin_host", None)
-                                if oh != b"local.node.example":
-                                    out.append(Violation(f"generate_answer[{tag}]:origin-host-not-local:untyped", f"{case}: {oh!r}", case))
-                            except Exception as e:
-                                out.append(Violation("generate_answer:raises:untyped", f"{case}: {type(e).__name__}: {e}", case))
+                        for appid in (4, 0, 0xffffffff):
+                            wire = rc.enc_msg(code, R | P, appid, 0x1234, 0x5678, avps)
+                            for via in ("node", "auth"):
+                                n += 1
+                                case = {"class": label, "proxy_infos": npi, "session": with_sess, "application_id": appid, "via": via}
+                                try:
+                                    req = Message.from_bytes(wire)
+                                    ans = node._generate_answer(None, req) if via == "node" else apps[via].generate_answer(req, result_code=2001)
+                                    tag = "node" if via == "node" else "app"
+                                    check_header(label, kind, hdr_tuple(req), req, ans, None, f"generate_answer[{tag}]", out, case)
+                                    if with_sess and getattr(ans, "session_id", None) != "sess;9":
+                                        out.append(Violation(f"generate_answer[{tag}]:session-id-not-copied:untyped", f"{case}", case))
+                                    if npi and not (hasattr(ans, "proxy_info") and same_attr(ans.proxy_info, req.proxy_info)):
+                                        out.append(Violation(f"generate_answer[{tag}]:proxy-info-not-copied:untyped:{npi}",
+                                                             f"{case}: answer has {getattr(ans, 'proxy_info', None)!r}", case))
+                                    oh = getattr(ans, "origin_host", None)
+                                    if oh != b"local.node.example":
+                                        out.append(Violation(f"generate_answer[{tag}]:origin-host-not-local:untyped", f"{case}: {oh!r}", case))
+                                except Exception as e:
+                                    out.append(Violation("generate_answer:raises:untyped", f"{case}: {type(e).__name__}: {e}", case))
                 continue
             if kind != "typed-request" or want is None:
                 continue
             ans_attrs = {d.attr_name: d for d in want.avp_def}
             req_attrs = {d.attr_name: d for d in cls.avp_def}
-            for fl in (R, R | P, R | P | T, R | E | T, R | 0x0f):
+            for fl, appid in ((R, 4), (R | P, 4), (R | P | T, 4), (R | E | T, 4), (R | 0x0f, 4), (R | P, 0), (R, 0xffffffff), (R | P, 3)):
                 for with_avps in (False, True):
                     avps = [rc.octets(264, b"peer.example.org"), rc.octets(296, b"example.org")]
                     pi = rc.grouped(284, [rc.octets(280, b"proxy.example.org"), rc.octets(33, b"state")])
                     pi2 = rc.grouped(284, [rc.octets(280, b"proxy2.example.org"), rc.octets(33, b"state2")])
                     if with_avps:
                         avps = [rc.utf8(263, "sess;1;2")] + avps + [pi, pi2]
-                    wire = rc.enc_msg(code, fl, 4, 0x1234, 0x5678, avps)
+                    wire = rc.enc_msg(code, fl, appid, 0x1234, 0x5678, avps)
                     for via in ("node", "auth", "acct"):
                         n += 1
-                        case = {"class": label, "flags": fl, "with_avps": with_avps, "via": via}
+                        case = {"class": label, "flags": fl, "application_id": appid, "with_avps": with_avps, "via": via}
                         try:
                             req = Message.from_bytes(wire)
                             if type(req) is not cls:
